@@ -25,6 +25,11 @@ class Obj:
         self.items = items
         self.cap = max(len(items), 4) if kind == "list" else None
         self.grown = False
+        # how often the list has moved; a reference stored somewhere else than the running fiber's stack is current only
+        # if it was stored after the latest move
+        self.epoch = 0
+        # moved by another fiber: the locals of this fiber were not rewritten
+        self.tainted = False
 
 
 def generate(r, in_fn, allow_exempt=False):
@@ -46,7 +51,7 @@ def generate(r, in_fn, allow_exempt=False):
         return "[" + ", ".join(str(x) for x in o.items) + "]"
 
     def new_object():
-        kind = r.choice(["list", "list", "list", "map", "inst", "list", "tuple", "closure"])
+        kind = r.choice(["list", "list", "list", "map", "inst", "list", "tuple", "closure", "subinst"])
         oid = len(objs)
         if kind == "list":
             o = Obj(oid, "list", [r.randint(0, 9) for _ in range(r.choice([0, 1, 3, 4, 4, 5, 8]))])
@@ -58,6 +63,11 @@ def generate(r, in_fn, allow_exempt=False):
             # immutable, still an object with an identity of its own: two tuples with equal elements are two keys
             o = Obj(oid, "tuple", [r.randint(0, 3), r.randint(0, 3)])
             source = "(%d, %d)" % (o.items[0], o.items[1])
+        elif kind == "subinst":
+            # an instance of a subclass whose init assigns the inherited field again and adds one of its own; the field is
+            # read and written by name and through the methods of the base class
+            o = Obj(oid, "subinst", [r.randint(0, 9), 7])
+            source = "SubBox(%d)" % o.items[0]
         elif kind == "closure":
             o = Obj(oid, "closure", [r.randint(0, 3)])
             source = "mkconst(%d)" % o.items[0]
@@ -69,19 +79,39 @@ def generate(r, in_fn, allow_exempt=False):
         variables[name] = o
         body.append("let %s = %s;" % (name, source))
 
-    def observe(expr, value, involved, stack_only=False):
-        if any(o.grown for o in involved) and not (in_fn and stack_only) and not allow_exempt:
-            stats["exempted"] += 1
-            return
+    stamps = {}      # (place, object id) -> epoch of the list when the reference was stored there
+
+    def stamp(place, o):
+        stamps[(place, o.id)] = o.epoch
+
+    def current(place, o):
+        return o.kind != "list" or stamps.get((place, o.id)) == o.epoch
+
+    def observe(expr, value, involved, stack_only=False, stored=None):
+        moved = [o for o in involved if o.kind == "list" and o.grown]
+        if moved and not allow_exempt:
+            # the pinned finding: a reference outside the running fiber's stack is not rewritten when its list moves. What
+            # remains enforced: locals of the running function among each other, and references that were stored after
+            # the latest move (they were copied from a rewritten local)
+            fine = in_fn and not any(o.tainted for o in moved) and (
+                stack_only or (stored is not None and all(current(place, o) for place, o in stored)))
+            if not fine:
+                stats["exempted"] += 1
+                return
         body.append("print(%s);" % expr)
         expect.append(value)
         stats["observations"] += 1
 
     def mutate_list(target, o, through_fiber=None):
-        m = r.choice(["push", "push", "push", "pop", "insert", "remove", "set", "clear"])
+        m = r.choice(["push", "push", "push", "pop", "insert", "remove", "set", "clear", "pushmany"])
         x = r.randint(10, 99)
         text = None
-        if m == "push":
+        if m == "pushmany":
+            # one call that makes the list outgrow its block several times over
+            values = [r.randint(10, 99) for _ in range(r.randint(13, 40))]
+            text = "%s.push(%s);" % (target, ", ".join(str(v) for v in values))
+            o.items.extend(values)
+        elif m == "push":
             text = "%s.push(%d);" % (target, x)
             o.items.append(x)
         elif m == "insert":
@@ -103,6 +133,7 @@ def generate(r, in_fn, allow_exempt=False):
             if not o.grown:
                 stats["grown"] += 1
             o.grown = True
+            o.epoch += 1
             while o.cap < len(o.items):
                 o.cap = max(o.cap * 2, 1)
         return text
@@ -112,7 +143,7 @@ def generate(r, in_fn, allow_exempt=False):
         act = r.choice(["new", "alias", "hold", "key", "box", "mut", "mut", "mut", "mut", "eq", "eq", "hhas", "mhas", "len",
                         "boxeq", "capture", "tuple", "observer", "fobs", "fobs", "fmut", "viaholder", "viabox", "growcall",
                         "growcall", "bigkey", "itermut", "itermut", "table", "table", "copy", "copy", "tempkey", "walk", "walk",
-                        "pairs"])
+                        "pairs", "growkey", "growkey"])
         names = list(variables)
         a = r.choice(names)
         o = variables[a]
@@ -125,19 +156,24 @@ def generate(r, in_fn, allow_exempt=False):
         elif act == "hold":
             body.append("H.push(%s);" % a)
             holder.append(o)
+            stamp("H%d" % (len(holder) - 1), o)
         elif act == "key":
             if o not in map_keys:
                 body.append("M[%s] = %d;" % (a, o.id))
                 map_keys.append(o)
+                stamp("M", o)
         elif act == "box":
             body.append("B.v = %s;" % a)
             boxed[0] = o
+            stamp("B", o)
         elif act == "capture" and captured[0] is None:
             body.append("let getter = mkgetter(%s);" % a)
             captured[0] = o
+            stamp("cap", o)
         elif act == "tuple" and in_tuple[0] is None:
             body.append("let T = (%s, 1);" % a)
             in_tuple[0] = o
+            stamp("T", o)
         elif act == "observer" and len(observers) < 2 and o.kind in ("list", "inst"):
             k = len(observers)
             body.append("let ask%d = chan(1); let answer%d = chan(1); launch observer(%s, ask%d, answer%d);" % (k, k, a, k, k))
@@ -165,6 +201,34 @@ def generate(r, in_fn, allow_exempt=False):
             position = next((i for i, candidate in enumerate(ids) if candidate is target), None)
             expect.append("%s %s %d" % ("true" if position is not None else "false", position if position is not None else "nil", len(members)))
             stats["observations"] += 1
+        elif act == "growkey" and o.kind == "list" and in_fn and not o.tainted:
+            # the list moves (by one push of many values, or by an insert into an exactly full block), is then used as a
+            # key and stored two levels deep, a few list natives run, and the fresh references must still find it
+            if r.random() < 0.5:
+                values = [r.randint(10, 99) for _ in range(r.randint(13, 40))]
+                body.append("%s.push(%s);" % (a, ", ".join(str(v) for v in values)))
+                o.items.extend(values)
+            else:
+                while len(o.items) < o.cap:
+                    body.append("%s.push(%d);" % (a, len(o.items)))
+                    o.items.append(len(o.items))
+                x = r.randint(10, 99)
+                body.append("%s.insert(%d, %d);" % (a, r.choice([0, len(o.items)]) if False else 0, x))
+                o.items.insert(0, x)
+            if len(o.items) > o.cap:
+                if not o.grown:
+                    stats["grown"] += 1
+                o.grown = True
+                o.epoch += 1
+                while o.cap < len(o.items):
+                    o.cap = max(o.cap * 2, 1)
+            k = len(body)
+            body.append("let mk%d = {}; mk%d[%s] = %d; let deep%d = [[%s]];" % (k, k, a, o.id, k, a))
+            body.append("print(%s.has(-5), %s.index(-5), %s.len(), deep%d[0].has(%s));" % (a, a, a, k, a))
+            expect.append("false nil %d true" % len(o.items))
+            body.append("print(mk%d.has(%s), mk%d.get(%s), deep%d[0][0] == %s, [%s].has(deep%d[0][0]));" % (k, a, k, a, k, a, a, k))
+            expect.append("true %d true true" % o.id)
+            stats["observations"] += 2
         elif act == "copy" and o.kind == "list":
             # sort, slice, rev and the collectors answer with a new object, whatever the length of the receiver: it is not
             # the receiver, it is not any other list, and a later mutation of either is not seen through the other
@@ -238,6 +302,7 @@ def generate(r, in_fn, allow_exempt=False):
                 if not o.grown:
                     stats["grown"] += 1
                 o.grown = True
+                o.epoch += 1
                 while o.cap < len(o.items):
                     o.cap = max(o.cap * 2, 1)
             expect.append("[%s]" % ", ".join(str(v) for v in o.items))
@@ -253,6 +318,7 @@ def generate(r, in_fn, allow_exempt=False):
                 if not o.grown:
                     stats["grown"] += 1
                 o.grown = True
+                o.epoch += 1
                 while o.cap < len(o.items):
                     o.cap = max(o.cap * 2, 1)
             observe("%s == %s" % (a, name), "true", [o], stack_only=True)
@@ -271,6 +337,18 @@ def generate(r, in_fn, allow_exempt=False):
             x = r.randint(0, 5)
             body.append("%s[%d] = %d;" % (a, x, x))
             o.items[x] = x
+        elif act == "mut" and o.kind == "subinst":
+            x = r.randint(10, 99)
+            how = r.choice(["name", "method", "extra"])
+            if how == "name":
+                body.append("%s.v = %d;" % (a, x))
+                o.items[0] = x
+            elif how == "method":
+                body.append("%s.put(%d);" % (a, x))
+                o.items[0] = x
+            else:
+                body.append("%s.extra = %d;" % (a, x))
+                o.items[1] = x
         elif act == "mut" and o.kind == "inst":
             x = r.randint(10, 99)
             body.append("%s.v = %d;" % (a, x))
@@ -285,6 +363,8 @@ def generate(r, in_fn, allow_exempt=False):
                     if not target.grown:
                         stats["grown"] += 1
                     target.grown = True
+                    target.epoch += 1
+                    target.tainted = True
                     while target.cap < len(target.items):
                         target.cap = max(target.cap * 2, 1)
             else:
@@ -310,24 +390,29 @@ def generate(r, in_fn, allow_exempt=False):
             b = r.choice(names)
             observe("%s == %s" % (a, b), "true" if variables[b] is o else "false", [o, variables[b]], stack_only=True)
         elif act == "hhas" and holder:
-            observe("H.has(%s)" % a, "true" if o in holder else "false", [o] + holder)
+            in_holder = [("H%d" % i, held) for i, held in enumerate(holder)]
+            observe("H.has(%s)" % a, "true" if o in holder else "false", [o] + holder, stored=in_holder)
             if o in holder:
-                observe("H.index(%s)" % a, str(holder.index(o)), [o] + holder)
+                observe("H.index(%s)" % a, str(holder.index(o)), [o] + holder, stored=in_holder)
         elif act == "mhas":
-            observe("M.has(%s)" % a, "true" if o in map_keys else "false", [o] + map_keys)
+            as_keys = [("M", key) for key in map_keys]
+            observe("M.has(%s)" % a, "true" if o in map_keys else "false", [o] + map_keys, stored=as_keys)
             if o in map_keys:
-                observe("M[%s]" % a, str(o.id), [o] + map_keys)
+                observe("M[%s]" % a, str(o.id), [o] + map_keys, stored=as_keys)
         elif act == "boxeq":
             if boxed[0] is not None:
-                observe("B.v == %s" % a, "true" if boxed[0] is o else "false", [o, boxed[0]])
+                observe("B.v == %s" % a, "true" if boxed[0] is o else "false", [o, boxed[0]], stored=[("B", boxed[0])])
             if captured[0] is not None:
-                observe("getter() == %s" % a, "true" if captured[0] is o else "false", [o, captured[0]])
+                observe("getter() == %s" % a, "true" if captured[0] is o else "false", [o, captured[0]], stored=[("cap", captured[0])])
             if in_tuple[0] is not None:
-                observe("T.has(%s)" % a, "true" if in_tuple[0] is o else "false", [o, in_tuple[0]])
+                observe("T.has(%s)" % a, "true" if in_tuple[0] is o else "false", [o, in_tuple[0]], stored=[("T", in_tuple[0])])
         elif act == "len":
             if o.kind == "list":
                 body.append("print(%s.len(), %s);" % (a, a))
                 expect.append("%d [%s]" % (len(o.items), ", ".join(str(x) for x in o.items)))
+            elif o.kind == "subinst":
+                body.append("print(%s.v, %s.get(), %s.extra, %s.both());" % (a, a, a, a))
+                expect.append("%d %d %d %d" % (o.items[0], o.items[0], o.items[1], o.items[0] + o.items[1]))
             elif o.kind == "inst":
                 body.append("print(%s.v);" % a)
                 expect.append(str(o.items[0]))
@@ -352,7 +437,8 @@ def generate(r, in_fn, allow_exempt=False):
         body.append("print(T[0].len());")
         expect.append(str(len(in_tuple[0].items)))
     header = [
-        "class Box { init(v) { self.v = v; } }",
+        "class Box { init(v) { self.v = v; } get() { self.v } put(x) { self.v = x; } }",
+        "class SubBox : Box { init(v) { super.init(v); self.v = v; self.extra = 7; } both() { self.v + self.extra } }",
         "fn mkgetter(x) { || x }",
         "fn grow(l, v) { l.push(v); l }",
         "fn mkconst(v) { || v }",
